@@ -562,7 +562,8 @@ def near_misses(rnd, n, depth2=0.2):
         if rnd.random() < depth2:
             t = mutate(rnd, t, ver)
         out.append(t)
-    return out
+    # two "very long field" faults in one vector multiply: TLC's string operators are quadratic, a megabyte string stalls a run for hours
+    return [t if len(t) <= 6000 else t[:6000] for t in out]
 
 
 def arbitrary_text(rnd, n):
